@@ -730,6 +730,7 @@ def r3(ctx, reach):
         if len(comp) > 1 or comp[0] in prog.callees.get(comp[0], ()):
             rec.append(sorted(comp))
     n = 0
+    adopted = set()
     for comp in rec:
         n += 1
         # key: the lexicographically smallest non-closure member
@@ -740,6 +741,16 @@ def r3(ctx, reach):
             if any(re.search(m, x) for m in r["members"] for x in comp):
                 row = r
                 break
+        if row is None:
+            # a renamed / wrapped recursive function: adopt the row of a cycle that vanished from the same source file(s)
+            cfiles = {prog.fns[x].file for x in comp if "{closure" not in x}
+            for r in rows:
+                live = any(re.search(m, x) for m in r["members"] for comp2 in rec for x in comp2)
+                if not live and id(r) not in adopted and r.get("files") and cfiles <= set(r["files"]) and len(comp) <= r.get("max_size", 10 ** 6):
+                    row = r
+                    adopted.add(id(r))
+                    ctx.note("recursion row adopted after a rename: %s <- %s" % (key, r["members"][0]))
+                    break
         if row is None:
             ctx.ob("R3", "scc %s" % key, False, "recursive cycle of %d functions without a stated measure: %s" % (len(comp), ", ".join(named[:6])), where=prog.fns[key].loc())
             continue
